@@ -294,6 +294,10 @@ func (bs *blockState) nextMap(x *ssa.Next) {
 	kid := mapKeyId(e, mt.Key(), key)
 	has, v := e.mapGet(bs.st, mt, m, kid)
 	e.def(imp(ok, and(has, not(app("select", seen, kid)))))
+	// when the iteration ends every key of the (unmodified) map has been visited
+	qk := e.freshName("k")
+	hm := e.mapHas(bs.st, mt)
+	e.def(imp(not(ok), fmt.Sprintf("(forall ((%s Int)) (! (=> (and (not (= %s 0)) (select (select %s %s) %s)) (select %s %s)) :pattern ((select (select %s %s) %s))))", qk, m, hm, m, qk, seen, qk, hm, m, qk)))
 	ns := e.fresh("seen", "(Array Int Bool)")
 	e.def(eq(ns, ite(ok, app("store", seen, kid, "true"), seen)))
 	nn := e.fresh("seen.n", SInt)
@@ -740,6 +744,12 @@ var _ = constant.MakeBool
 
 // typeByName resolves "pkg.Type" / "*pkg.Type" / basic type names against the loaded program.
 func (e *Enc) typeByName(name string) types.Type {
+	if strings.HasPrefix(name, "*[]") {
+		return types.NewPointer(types.NewSlice(e.typeByName(name[3:])))
+	}
+	if strings.HasPrefix(name, "[]") {
+		return types.NewSlice(e.typeByName(name[2:]))
+	}
 	ptr := strings.HasPrefix(name, "*")
 	n := strings.TrimPrefix(name, "*")
 	var t types.Type
